@@ -30,6 +30,7 @@ from static_frame.core.store_zip import StoreZipParquet
 from static_frame.core.store_zip import StoreZipPickle
 from static_frame.core.store_zip import StoreZipTSV
 from static_frame.core.util import DEFAULT_SORT_KIND
+from static_frame.core.util import CACHE_UPDATE_LOCK
 from static_frame.core.util import DTYPE_BOOL
 from static_frame.core.util import DTYPE_FLOAT_DEFAULT
 from static_frame.core.util import DTYPE_OBJECT
@@ -642,10 +643,10 @@ class Bus(ContainerBase, StoreClientMixin): # not a ContainerOperand
         Returns:
             Bus or, if an element is selected, a Frame
         '''
-        self._update_series_cache_iloc(key=key)
-
-        # iterable selection should be handled by NP
-        values = self._series.values[key]
+        with CACHE_UPDATE_LOCK: # other threads must not evict or replace between the update and the read
+            self._update_series_cache_iloc(key=key)
+            # iterable selection should be handled by NP
+            values = self._series.values[key]
 
         if not values.__class__ is np.ndarray: # if we have a single element
             return values #type: ignore
@@ -662,9 +663,9 @@ class Bus(ContainerBase, StoreClientMixin): # not a ContainerOperand
         iloc_key = self._series._index._loc_to_iloc(key)
 
         # NOTE: if we update before slicing, we change the local and the object handed back
-        self._update_series_cache_iloc(key=iloc_key)
-
-        values = self._series.values[iloc_key]
+        with CACHE_UPDATE_LOCK: # other threads must not evict or replace between the update and the read
+            self._update_series_cache_iloc(key=iloc_key)
+            values = self._series.values[iloc_key]
 
         if not values.__class__ is np.ndarray: # if we have a single element
             return values #type: ignore
